@@ -30,13 +30,13 @@ var w *hc.W
 // ---------- terminal configurations ----------
 
 type config struct {
-	name      string
-	ti        *terminfo.Terminfo
-	truecolor bool
-	caps      shadow.Caps
-	ulStyle   [6]bool
-	quirks    vt.Quirks
-	brTrick   bool // paints the bottom-right cell by inserting a character
+	name       string
+	ti         *terminfo.Terminfo
+	truecolor  bool
+	caps       shadow.Caps
+	ulStyle    [6]bool
+	quirks     vt.Quirks
+	brTrick    bool // paints the bottom-right cell by inserting a character
 	opExplicit bool
 }
 
@@ -120,15 +120,15 @@ func acsMap(ti *terminfo.Terminfo) map[byte]rune {
 // ---------- operations ----------
 
 type op struct {
-	kind     string
-	x, y     int
-	r        rune
-	comb     []rune
-	st       int
-	w, h     int
-	cs       int
-	col      tcell.Color
-	lock     bool
+	kind string
+	x, y int
+	r    rune
+	comb []rune
+	st   int
+	w, h int
+	cs   int
+	col  tcell.Color
+	lock bool
 }
 
 func (o op) String() string {
@@ -160,18 +160,18 @@ func (o op) String() string {
 }
 
 var styles = []shadow.StyleD{
-	{},                                  // 0 default
-	{Fg: tcell.ColorRed, Bg: tcell.ColorNavy}, // 1 palette fg/bg
-	{Fg: tcell.PaletteColor(200), Bg: tcell.ColorYellow},           // 2 high palette / bright
-	{Fg: tcell.NewRGBColor(10, 200, 33), Bg: tcell.NewRGBColor(250, 250, 1)}, // 3 RGB
-	{Fg: tcell.ColorNone, Bg: tcell.ColorReset},                     // 4 none / reset
-	{Fg: tcell.ColorWhite, Attrs: tcell.AttrBold, UL: 3, ULColor: tcell.NewRGBColor(1, 2, 3)}, // 5 bold + curly coloured underline
-	{Bg: tcell.ColorGreen, Attrs: tcell.AttrReverse | tcell.AttrItalic, URL: "http://x/y;z", URLI: "id1"}, // 6 url
-	{Fg: tcell.ColorAliceBlue, UL: 1, ULColor: tcell.ColorAliceBlue, Attrs: tcell.AttrDim | tcell.AttrBlink | tcell.AttrStrikeThrough}, // 7 named colour, underline named
-	{Fg: tcell.ColorBlack, Bg: tcell.ColorNone, UL: 2, ULColor: tcell.ColorReset},              // 8
-	{Fg: tcell.ColorLime, UL: 5, ULColor: tcell.PaletteColor(9)},                              // 9
-	{Fg: tcell.PaletteColor(255), Bg: tcell.NewRGBColor(255, 255, 255), UL: 4, ULColor: tcell.PaletteColor(255)}, // 10 extreme values
-	{Fg: tcell.Color(1000) | tcell.ColorValid, Bg: tcell.ColorSpecial | 99, URL: "http://h/p?a=1&b=%20;c", URLI: "x-y_z.1"}, // 11 odd colours, url with ; and %
+	{}, // 0 default
+	{Fg: tcell.ColorRed, Bg: tcell.ColorNavy},                                                                                                                                                    // 1 palette fg/bg
+	{Fg: tcell.PaletteColor(200), Bg: tcell.ColorYellow},                                                                                                                                         // 2 high palette / bright
+	{Fg: tcell.NewRGBColor(10, 200, 33), Bg: tcell.NewRGBColor(250, 250, 1)},                                                                                                                     // 3 RGB
+	{Fg: tcell.ColorNone, Bg: tcell.ColorReset},                                                                                                                                                  // 4 none / reset
+	{Fg: tcell.ColorWhite, Attrs: tcell.AttrBold, UL: 3, ULColor: tcell.NewRGBColor(1, 2, 3)},                                                                                                    // 5 bold + curly coloured underline
+	{Bg: tcell.ColorGreen, Attrs: tcell.AttrReverse | tcell.AttrItalic, URL: "http://x/y;z", URLI: "id1"},                                                                                        // 6 url
+	{Fg: tcell.ColorAliceBlue, UL: 1, ULColor: tcell.ColorAliceBlue, Attrs: tcell.AttrDim | tcell.AttrBlink | tcell.AttrStrikeThrough},                                                           // 7 named colour, underline named
+	{Fg: tcell.ColorBlack, Bg: tcell.ColorNone, UL: 2, ULColor: tcell.ColorReset},                                                                                                                // 8
+	{Fg: tcell.ColorLime, UL: 5, ULColor: tcell.PaletteColor(9)},                                                                                                                                 // 9
+	{Fg: tcell.PaletteColor(255), Bg: tcell.NewRGBColor(255, 255, 255), UL: 4, ULColor: tcell.PaletteColor(255)},                                                                                 // 10 extreme values
+	{Fg: tcell.Color(1000) | tcell.ColorValid, Bg: tcell.ColorSpecial | 99, URL: "http://h/p?a=1&b=%20;c", URLI: "x-y_z.1"},                                                                      // 11 odd colours, url with ; and %
 	{Fg: tcell.NewRGBColor(0, 0, 0), Attrs: tcell.AttrBold | tcell.AttrBlink | tcell.AttrReverse | tcell.AttrDim | tcell.AttrItalic | tcell.AttrStrikeThrough, UL: 3, ULColor: tcell.ColorReset}, // 12 everything
 	{URL: "x$<5>y", URLI: ""}, // 13 application text that looks like a padding specification
 	// 14..21: a base style and seven variants differing from it in exactly one field
@@ -852,7 +852,7 @@ func c09Scenarios() []scenario {
 // 'Q', a wide rune, a line-drawing rune and blanks, so any other printed character is
 // residue of a capability string (padding specification, parameter language).
 func lifecycle(entries []common.Entry) {
-	locales := []struct{ env, cs string }{{"en_US.UTF-8", "UTF-8"}, {"en_US.ISO8859-1", "ISO8859-1"}}
+	locales := []struct{ env, cs string }{{"en_US.UTF-8", "UTF-8"}, {"en_US.ISO8859-1", "ISO8859-1"}, {"ja_JP.ISO2022JP", "ISO2022JP"}}
 	item := 5000
 	n := 0
 	for _, e := range entries {
@@ -928,7 +928,7 @@ func lifecycle(entries []common.Entry) {
 				s.SetCursorStyle(tcell.CursorStyleDefault, tcell.ColorReset)
 				s.Show()
 				step("SetCursorStyle")
-				s.SetTitle("Q\u00dcQ") // (U+00DC: its UTF-8 form contains the byte 9c, the 8-bit string terminator)
+				s.SetTitle("Q\u00dcQ\u3042") // (U+00DC: its UTF-8 form contains the byte 9c, the 8-bit string terminator; U+3042: ISO-2022-JP needs an escape sequence for it)
 				s.SetClipboard([]byte("Q"))
 				s.GetClipboard()
 				_ = s.Beep()
@@ -1142,7 +1142,7 @@ func main() {
 				OpName: func(i int) string { return sc.ops[i].String() },
 				New:    func() seq.Sys { return newSys(cfg, sc) },
 				Mine:   hc.Mine, Shard0: *hc.Shard == 0, ShardDepth: 2,
-				Stop:   w.Expired, MaxViolationSigs: 6,
+				Stop: w.Expired, MaxViolationSigs: 6,
 				OnViolation: func(sig, desc string, hist []int) {
 					var names []string
 					for _, o := range hist {
